@@ -219,6 +219,8 @@ class Facts(Walker):
                 return norm_of(inner)
             if last in VALUE_PRESERVING_NP and args:
                 return self.vn(args[0], st)
+            if last == "mod" and len(args) == 2:
+                return "Mod(%s,%s)" % (self.vn(args[0], st), self.vn(args[1], st))      # np.mod(a, b) is a % b
             return "np.%s(%s)" % (npn, ",".join(self.vn(a, st) for a in args if not isinstance(a, ast.Starred)))
         if isinstance(f, ast.Attribute):
             base = self.vn(f.value, st)
@@ -639,9 +641,24 @@ class Facts(Walker):
         return super().s_For(s, st)
 
     def assign_loop_target(self, target, iter_node, st):
-        for n in ast.walk(target):
-            if isinstance(n, ast.Name):
-                st["v:" + n.id] = self.fresh("iter", iter_node)
+        """loop variables get a fresh value number on every pass (facts about one element must not carry over to the next); LOOP_DESC remembers
+        what each one stands for -- element (component i of the element) of which iterable -- so that two copies of a loop can be compared"""
+        try:
+            it_vn = self.vn(iter_node, st)
+        except Exception:
+            it_vn = "?"
+        if isinstance(target, ast.Name):
+            v = self.fresh("iter", iter_node)
+            LOOP_DESC[v] = "elt(%s)" % it_vn
+            st["v:" + target.id] = v
+            return
+        elts = target.elts if isinstance(target, (ast.Tuple, ast.List)) else []
+        for i, e in enumerate(elts):
+            for n in ast.walk(e):
+                if isinstance(n, ast.Name):
+                    v = self.fresh("iter", iter_node)
+                    LOOP_DESC[v] = "elt(%s)[c:%d]" % (it_vn, i)
+                    st["v:" + n.id] = v
 
     def bind_const(self, name, value, st):
         st["v:" + name] = "c:%r" % value
@@ -651,6 +668,7 @@ class Facts(Walker):
 
 
 PHI = {}      # phi name -> frozenset of member value numbers
+LOOP_DESC = {}      # fresh value number of a loop variable -> canonical description elt(<iterable>)[i]
 
 
 def _phi(a, b):
